@@ -99,6 +99,9 @@ def gen_cases(rng, tier, binary, workdir):
                 # come first and more of them go to the Coq specification as well
                 ins = cc.core_jets.edge_inputs(nm, r4)[: (40 if tier == "quick" else 400)] + ins[: (6 if tier == "quick" else 30)]
                 nmodel = (2 if w > 2000 else 5) if tier == "quick" else (8 if w > 2000 else 30)
+                if nm in cc.core_jets.SLOW_MODEL:
+                    # a scalar multiplication takes seconds under vm_compute: the first structured inputs only go to Coq
+                    nmodel = 2 if tier == "quick" else 6
             else:
                 ins += cc.core_jets.edge_inputs(nm, r4)[: (12 if tier == "quick" else 200)]
         prog = [("jet", "c", nm)]
@@ -106,7 +109,7 @@ def gen_cases(rng, tier, binary, workdir):
         for q, bits in enumerate(ins):
             v = pg.of_padded(s, bits) if w else ("U",)
             add(prog, arrows, {}, (s, bits) if w else None, {"value": v, "gen": "jet", "jet": nm},
-                model=(q < nmodel or (q % 11 == 5 and w <= 2000)))
+                model=(q < nmodel or (q % 11 == 5 and w <= 2000 and nm not in getattr(cc.core_jets, "SLOW_MODEL", ()))))
     # ---- 3. the same runs observed at the level of `Value` (buffer, bit offset, type): the input Value sits at an
     # arbitrary bit offset of a shared buffer, the output is the Value exec returns (model: Core/ExecValue.v)
     r5 = rng.fork("values")
@@ -234,9 +237,11 @@ def run(rep, tier, rng):
     vplib.proof_stage(rep, "Props/C05.v", extra_targets=cc.EXTRA_TARGETS, allowed_axioms=cc.UINT63_PRIMS)
     tm["proof_stage_s"] = round(time.time() - t0, 1)
     rep.coverage["trusted_base"] = vplib.GENERIC_TRUSTED + [
-        "models Core/{Term,Typing,Sem,Machine}.v written by hand from bit_machine/{mod,frame}.rs; Jets/JetSpec.v and Jets/JetSpecSha.v by hand "
-        "(342 Core jets: arithmetic/logic/comparison families, SHA-256 family over Merkle/Sha256.v, parse_lock/parse_sequence, secp256k1 field "
-        "and scalar arithmetic), the other jets (elliptic curve points, signatures) are an oracle (Section variable jet_sem)",
+        "models Core/{Term,Typing,Sem,Machine}.v written by hand from bit_machine/{mod,frame}.rs; Jets/JetSpec.v, Jets/JetSpecSha.v, "
+        "Jets/JetSpecSecp.v and Jets/JetSpecSecpSig.v by hand (all 368 Core jets: arithmetic/logic/comparison families, SHA-256 family over "
+        "Merkle/Sha256.v, parse_lock/parse_sequence, secp256k1 field and scalar arithmetic, secp256k1 points in affine and Jacobian coordinates "
+        "with libsecp256k1's exact representatives, secp256k1_ecmult, swu / hash_to_curve, BIP-340 verification); the proofs keep the jets a "
+        "Section variable jet_sem",
         "final arrows, CMRs of disconnected branches and jet costs are taken from the implementation and handed to the model as data",
         "python reference evaluator tools/proggen.py eval_prog + tools/props/core_jets.py (independent of the Coq text)",
         "not modelled: overflow of cursor additions (unreachable under the theorems' premises), JetTypeMismatch, C jets, FFI marshalling",
@@ -253,7 +258,7 @@ def run(rep, tier, rng):
     impl, model = vplib.eval_cases(rep, binary, "core", cases, IMPORTS, tag="c05", batch=80)
     t0 = time.time()
     pfail, mism = vplib.decide(rep, cases, impl, model, prop_check, None, nontrivial,
-                               what="correspondence Core/Run2.v (run_exec2) vs BitMachine")
+                               what="correspondence Jets/JetSpecAll3.v (run_exec3) vs BitMachine")
     tm["property_check_s"] = round(time.time() - t0, 1)
     rep.coverage["timings"] = tm
     # second tie: the Coq big-step semantics against the python reference on a sample
@@ -261,7 +266,7 @@ def run(rep, tier, rng):
     sample = sample[:: max(1, len(sample) // (150 if tier == "quick" else 3000))]
     jl, costs = cc.jet_tables(binary, rep.workdir())
     jet_ids = {("c", j[1]): j[0] for j in jl}
-    exprs = ["run_eval2 %s %s %s" % (cc.coq_typed_prog(c.meta["prog"], c.meta["arrows"], jet_ids), cc.coq_cmrs(c.meta["cmrs"]),
+    exprs = ["run_eval3 %s %s %s" % (cc.coq_typed_prog(c.meta["prog"], c.meta["arrows"], jet_ids), cc.coq_cmrs(c.meta["cmrs"]),
                                       pg.val_coq(c.meta["value"])) for c in sample]
     vals, logs = vplib.coq_eval(IMPORTS, exprs, workdir=rep.workdir(), tag="c05eval", batch=60)
     sem_bad = []
